@@ -63,6 +63,22 @@ CHECKS.update({
          "of every context logged after each step and judged by TLC; clone results must be bit-identical.",
          "Settings vector = (prec, dps, pretty, trap_complex). Coupling through module-level caches is C33's business.", "DESIGN.md §4 C38"),
 })
+CHECKS.update({
+ "C04": (EX, TRACE_TECH.replace("MpfPost", "MpcPost") + " (per-component rounding of exact dyadic components; squared-modulus bound for quotients)",
+         "Complex +,-,*, z*x, z+x, integer powers, division/reciprocal/negative powers and equality recorded through libmp, operators and f-functions and judged by TLC.",
+         TRACE_NOTE + " Operands have finite parts; 'a few ulps' for quotients is fixed at 8.", "DESIGN.md §4 C04"),
+ "C14": (EX, "TLC trace validation: exact point results (dyadic/rational, MpiPost) of sample member points must lie in the returned interval",
+         "Interval +,-,*,/,integer powers, abs, neg, sqrt and conversions (int, float, mpf, rational, string forms) judged by TLC for containment of the "
+         "exact result of every sampled member-point combination, endpoints included.",
+         TRACE_NOTE + " exp/log/sin/cos/tan/atan2/gamma family containment needs the spec's series enclosures (RealFun) and is not yet judged here.", "DESIGN.md §4 C14"),
+ "C15": (EX, "TLC trace validation: exact point results of sample corner/interior points must lie in the returned rectangle (MpiPost)",
+         "Rectangle +,-,*,/,integer powers, abs judged by TLC for containment at all corner combinations and further member points.",
+         TRACE_NOTE + " Transcendental functions of rectangles are not yet judged.", "DESIGN.md §4 C15"),
+ "C16": (MC, "TLC exhaustive model over all order types of two intervals (IvCmp: transcribed predicates = quantified semantics) + replay of every model pair on the real iv context",
+         "IvCmp is complete for order types incl. infinite endpoints; every pair with the spec's verdicts is replayed in several numeric realisations and operand encodings; "
+         "operands with more bits than iv.prec are checked for soundness and for exact membership.",
+         "Trusted: order-type completeness argument; mp.mpf == interval (mp-context behaviour) is excluded.", "DESIGN.md §4 C16"),
+})
 
 ALL = ["C%02d" % i for i in range(1, 44)]
 NOT_APPLICABLE = {
